@@ -30,7 +30,7 @@ C_asis == Cfg({<<1,3>>}, Single, {FALSE}) \cup Cfg({<<1,1,2>>}, {PC}, {FALSE})  
 \* thorough
 C_single4 == Cfg(PV_n4 \cup PV_n4b, Single, {TRUE}) \cup Cfg(PV_n1 \cup PV_n2 \cup PV_n3, Single, {TRUE})
 C_thoroughA == C_single4 \cup C_quick
-C_joint   == Cfg(PV_n2, Joint, {TRUE}) \cup Cfg({<<1,1,2>>}, Joint, {FALSE})
+C_joint   == Cfg(PV_n2, Joint, {TRUE}) \cup Cfg({<<1,1,2>>, <<2,2,3>>}, Joint, {FALSE})
 C_four    == Cfg({<<1,1,1,1>>}, {PC}, {FALSE}) \cup Cfg(PV_n3, Single, {TRUE})   \* with TO4
 \* simulation (behaviour export): both kinds, 4 validators
 C_sim == Cfg(PV_n4 \cup PV_n4b, Joint, {TRUE})
